@@ -110,7 +110,7 @@ def run_case(cs):
     variants = []
     for _ in range(rng.randint(3, 5)):
         loc = rng.choice(["plain", "asc-parent", "pattern-parent", "deep", "unicode-parent", "symlink-parent", "bracket-parent"])
-        form = rng.choice(["abs", "abs", "slash", "rel-root", "rel-dot-slash", "rel-dot"])
+        form = rng.choice(["abs", "abs", "slash", "rel-root", "rel-dot-slash", "rel-dot", "slashes", "dotdot", "rel-dotdot"])
         lst = rng.choice(["sorted", "permuted"])
         if (loc, form, lst) == ("plain", "abs", "sorted"):
             lst = "permuted"
@@ -146,6 +146,17 @@ def run_case(cs):
             root_arg, cwd = "./root/", os.path.dirname(root)
         elif form == "rel-dot":
             root_arg, cwd = ".", root
+        elif form == "slashes":
+            root_arg = root + rng.choice(["//", "///", "/.//"])
+        elif form in ("dotdot", "rel-dotdot"):
+            # the root reached through one of its own sub folders: ROOT/sub/.. or `..` from inside ROOT/sub
+            subs = sorted(k for k, v in tree.items() if v is None and "/" not in k and not k.startswith("-"))
+            if not subs:
+                form = "abs"
+            elif form == "dotdot":
+                root_arg = root + "/" + rng.choice(subs) + "/.."
+            else:
+                root_arg, cwd = "..", os.path.join(root, rng.choice(subs))
         if lst == "permuted":
             lseed = rng.randint(1, 10**6)
         v = loc + "/" + form + ("/listing" if lseed is not None else "")
